@@ -1,11 +1,30 @@
 ------------------------------ MODULE MARSCore ------------------------------
-(* Prototype: one-task semantics of ICWS'94 draft reference emulator + A-indirect modes *)
+(***************************************************************************)
+(* One task of an ICWS'94 MARS: the reference interpreter of the draft      *)
+(* standard (section 5.6, EMI94.c), extended with the A-number indirect     *)
+(* modes * { } exactly like the B-number modes but through the A field of   *)
+(* the intermediate cell.  Written from the draft, NOT from gmars.          *)
+(*                                                                          *)
+(* An instruction is a record [op, mod, am, a, bm, b]; a core is a function *)
+(* 0..M-1 -> instruction; cfg is a record with at least M, RL, WL.          *)
+(*                                                                          *)
+(* ExecTask(core, pc, cfg) = [core, push, ev]                               *)
+(*   core : the core after the task                                         *)
+(*   push : the 0, 1 or 2 program counters to append to the queue, in order *)
+(*   ev   : the reference event list of the task (without the leading Pop): *)
+(*          Dec(A-predec)? Inc(A-postinc)? Dec(B-predec)? Inc(B-postinc)?   *)
+(*          then Write(WAB) | Dec(WAB) | Read,Read | Term(pc)               *)
+(***************************************************************************)
 EXTENDS Integers, Sequences, FiniteSets
 
 Ops   == {"DAT","MOV","ADD","SUB","MUL","DIV","MOD","CMP","SEQ","SNE","SLT","JMP","JMZ","JMN","DJN","SPL","NOP"}
 Mods  == {"F","A","B","AB","BA","X","I"}
 Modes == {"$","#","*","@","{","<","}",">"}
 
+Ins(op, mod, am, a, bm, b) == [op |-> op, mod |-> mod, am |-> am, a |-> a, bm |-> bm, b |-> b]
+Blank == Ins("DAT", "F", "$", 0, "$", 0)            \* the initial content of every cell
+
+\* Read/write limit folding (draft 5.6: "fold"): result in [0, M)
 Fold(p, lim, M) == LET r == p % lim IN IF r > (lim \div 2) THEN r + (M - lim) ELSE r
 
 Field(ins, f)       == IF f = "A" THEN ins.a ELSE ins.b
@@ -14,20 +33,21 @@ IndField(mode) == IF mode \in {"*","{","}"} THEN "A" ELSE "B"
 IsPre(mode)    == mode \in {"{","<"}
 IsPost(mode)   == mode \in {"}",">"}
 
-\* cfg == [M, RL, WL]
-Operand(core, pc, mode, val, cfg) ==
-  LET M == cfg.M IN
+(* Operand evaluation.  rp / wp are the read / write pointers RELATIVE to pc;   *)
+(* pip = absolute address to post-increment (or -1); dec = absolute address that *)
+(* was pre-decremented (or -1); f = the field used for indirection.             *)
+OperandG(core, pc, mode, val, M, FR(_), FW(_)) ==
   IF mode = "#" THEN [core |-> core, rp |-> 0, wp |-> 0, pip |-> -1, f |-> "B", dec |-> -1]
-  ELSE LET rp0 == Fold(val, cfg.RL, M)
-           wp0 == Fold(val, cfg.WL, M) IN
+  ELSE LET rp0 == FR(val)
+           wp0 == FW(val) IN
     IF mode = "$" THEN [core |-> core, rp |-> rp0, wp |-> wp0, pip |-> -1, f |-> "B", dec |-> -1]
     ELSE LET f  == IndField(mode)
-             da == (pc + wp0) % M
+             da == (pc + wp0) % M                       \* side effects go through the WRITE pointer
              c1 == IF IsPre(mode)
                    THEN [core EXCEPT ![da] = SetField(@, f, (Field(@, f) + M - 1) % M)]
                    ELSE core
-             rp == Fold(rp0 + Field(c1[(pc + rp0) % M], f), cfg.RL, M)
-             wp == Fold(wp0 + Field(c1[(pc + wp0) % M], f), cfg.WL, M)
+             rp == FR(rp0 + Field(c1[(pc + rp0) % M], f))
+             wp == FW(wp0 + Field(c1[(pc + wp0) % M], f))
          IN [core |-> c1, rp |-> rp, wp |-> wp,
              pip |-> IF IsPost(mode) THEN da ELSE -1, f |-> f,
              dec |-> IF IsPre(mode) THEN da ELSE -1]
@@ -36,7 +56,7 @@ PostInc(core, o, M) ==
   IF o.pip = -1 THEN core
   ELSE [core EXCEPT ![o.pip] = SetField(@, o.f, (Field(@, o.f) + 1) % M)]
 
-\* destination/source field pairs selected by a modifier: <<dst, srcOfIRA, srcOfIRB>> 
+\* <<destination field, field taken from IRA, field taken from IRB>> selected by a modifier
 Pairs(mod) ==
   CASE mod = "A"  -> << <<"A","A","A">> >>
     [] mod = "B"  -> << <<"B","B","B">> >>
@@ -45,76 +65,97 @@ Pairs(mod) ==
     [] mod \in {"F","I"} -> << <<"A","A","A">>, <<"B","B","B">> >>
     [] mod = "X"  -> << <<"B","A","B">>, <<"A","B","A">> >>
 
-Arith(op, x, y, M) == \* y op x  (IRB op IRA)
+Arith(op, x, y, M) ==   \* y op x   (IRB op IRA); DIV/MOD only called with x # 0
   CASE op = "ADD" -> (y + x) % M
     [] op = "SUB" -> (y + M - x) % M
     [] op = "MUL" -> (y * x) % M
     [] op = "DIV" -> y \div x
     [] op = "MOD" -> y % x
 
-ExecTask(core0, pc, cfg) ==
-  LET M   == cfg.M
-      IR  == core0[pc]
-      oa  == Operand(core0, pc, IR.am, IR.a, cfg)
+ExecTaskG(core0, pc, M, FR(_), FW(_)) ==
+  LET IR  == core0[pc]                                  \* a copy, taken before anything changes
+      oa  == OperandG(core0, pc, IR.am, IR.a, M, FR, FW)
       IRA == oa.core[(pc + oa.rp) % M]
-      c2  == PostInc(oa.core, oa, M)
-      ob  == Operand(c2, pc, IR.bm, IR.b, cfg)
+      c2  == PostInc(oa.core, oa, M)                    \* A post-increment before B is evaluated
+      ob  == OperandG(c2, pc, IR.bm, IR.b, M, FR, FW)
       IRB == ob.core[(pc + ob.rp) % M]
       c4  == PostInc(ob.core, ob, M)
       WAB == (pc + ob.wp) % M
       RAB == (pc + oa.rp) % M
+      RBB == (pc + ob.rp) % M
       nx  == (pc + 1) % M
       sk  == (pc + 2) % M
       prs == Pairs(IR.mod)
       n   == Len(prs)
-      \* generic write of pairs
+      op  == IR.op
+      pre == (IF oa.dec # -1 THEN << <<"Dec", oa.dec>> >> ELSE << >>)
+          \o (IF oa.pip # -1 THEN << <<"Inc", oa.pip>> >> ELSE << >>)
+          \o (IF ob.dec # -1 THEN << <<"Dec", ob.dec>> >> ELSE << >>)
+          \o (IF ob.pip # -1 THEN << <<"Inc", ob.pip>> >> ELSE << >>)
       WritePairs(c, val(_)) ==
          LET w1 == [c EXCEPT ![WAB] = SetField(@, prs[1][1], val(prs[1]))] IN
          IF n = 1 THEN w1 ELSE [w1 EXCEPT ![WAB] = SetField(@, prs[2][1], val(prs[2]))]
       AllPairs(P(_)) == \A i \in 1..n : P(prs[i])
       AnyPair(P(_))  == \E i \in 1..n : P(prs[i])
-      op == IR.op
+      R(c, push, e) == [core |-> c, push |-> push, ev |-> pre \o e,
+                        wab |-> WAB, rab |-> RAB, rbb |-> RBB]
+      W == << <<"Write", WAB>> >>
+      Rd == << <<"Read", RAB>>, <<"Read", RBB>> >>
   IN
-  CASE op = "DAT" -> [core |-> c4, push |-> << >>]
+  CASE op = "DAT" -> R(c4, << >>, << <<"Term", pc>> >>)
     [] op = "MOV" ->
-         IF IR.mod = "I" THEN [core |-> [c4 EXCEPT ![WAB] = IRA], push |-> <<nx>>]
-         ELSE LET v(p) == Field(IRA, p[2]) IN [core |-> WritePairs(c4, v), push |-> <<nx>>]
+         IF IR.mod = "I" THEN R([c4 EXCEPT ![WAB] = IRA], <<nx>>, W)
+         ELSE LET v(p) == Field(IRA, p[2]) IN R(WritePairs(c4, v), <<nx>>, W)
     [] op \in {"ADD","SUB","MUL"} ->
          LET v(p) == Arith(op, Field(IRA, p[2]), Field(IRB, p[3]), M)
-         IN [core |-> WritePairs(c4, v), push |-> <<nx>>]
+         IN R(WritePairs(c4, v), <<nx>>, W)
     [] op \in {"DIV","MOD"} ->
          LET ok(p) == Field(IRA, p[2]) # 0
-             v(p)  == IF ok(p) THEN Arith(op, Field(IRA, p[2]), Field(IRB, p[3]), M)
-                      ELSE Field(c4[WAB], p[1])
-             \* when the 2 pairs write: each write happens only if its divisor non-zero
+             v(p)  == Arith(op, Field(IRA, p[2]), Field(IRB, p[3]), M)
              w1 == IF ok(prs[1]) THEN [c4 EXCEPT ![WAB] = SetField(@, prs[1][1], v(prs[1]))] ELSE c4
              w2 == IF n = 2 /\ ok(prs[2]) THEN [w1 EXCEPT ![WAB] = SetField(@, prs[2][1], v(prs[2]))] ELSE w1
-         IN [core |-> w2, push |-> IF AllPairs(ok) THEN <<nx>> ELSE << >>]
-    [] op = "JMP" -> [core |-> c4, push |-> <<RAB>>]
+         IN IF AllPairs(ok) THEN R(w2, <<nx>>, W)
+            ELSE R(w2, << >>, IF AnyPair(ok) THEN W \o << <<"Term", pc>> >> ELSE << <<"Term", pc>> >>)
+    [] op = "JMP" -> R(c4, <<RAB>>, << >>)
     [] op = "JMZ" ->
          LET z(p) == Field(IRB, p[3]) = 0 IN
-         [core |-> c4, push |-> IF AllPairs(z) THEN <<RAB>> ELSE <<nx>>]
+         R(c4, IF AllPairs(z) THEN <<RAB>> ELSE <<nx>>, << >>)
     [] op = "JMN" ->
          LET nz(p) == Field(IRB, p[3]) # 0 IN
-         [core |-> c4, push |-> IF AnyPair(nz) THEN <<RAB>> ELSE <<nx>>]
+         R(c4, IF AnyPair(nz) THEN <<RAB>> ELSE <<nx>>, << >>)
     [] op = "DJN" ->
-         LET d(p)  == (Field(c4[WAB], p[1]) + M - 1) % M
-             \* decrement target fields in the written cell one after another
-             w1 == [c4 EXCEPT ![WAB] = SetField(@, prs[1][1], (Field(@, prs[1][1]) + M - 1) % M)]
+         LET w1 == [c4 EXCEPT ![WAB] = SetField(@, prs[1][1], (Field(@, prs[1][1]) + M - 1) % M)]
              w2 == IF n = 2 THEN [w1 EXCEPT ![WAB] = SetField(@, prs[2][1], (Field(@, prs[2][1]) + M - 1) % M)] ELSE w1
              nz(p) == (Field(IRB, p[3]) + M - 1) % M # 0
-         IN [core |-> w2, push |-> IF AnyPair(nz) THEN <<RAB>> ELSE <<nx>>]
+         IN R(w2, IF AnyPair(nz) THEN <<RAB>> ELSE <<nx>>, << <<"Dec", WAB>> >>)
     [] op \in {"CMP","SEQ"} ->
          LET eq(p) == Field(IRA, p[2]) = Field(IRB, p[3])
              c == IF IR.mod = "I" THEN IRA = IRB ELSE AllPairs(eq)
-         IN [core |-> c4, push |-> IF c THEN <<sk>> ELSE <<nx>>]
+         IN R(c4, IF c THEN <<sk>> ELSE <<nx>>, Rd)
     [] op = "SNE" ->
          LET eq(p) == Field(IRA, p[2]) = Field(IRB, p[3])
              c == IF IR.mod = "I" THEN IRA = IRB ELSE AllPairs(eq)
-         IN [core |-> c4, push |-> IF c THEN <<nx>> ELSE <<sk>>]
+         IN R(c4, IF c THEN <<nx>> ELSE <<sk>>, Rd)
     [] op = "SLT" ->
          LET lt(p) == Field(IRA, p[2]) < Field(IRB, p[3]) IN
-         [core |-> c4, push |-> IF AllPairs(lt) THEN <<sk>> ELSE <<nx>>]
-    [] op = "SPL" -> [core |-> c4, push |-> <<nx, RAB>>]
-    [] op = "NOP" -> [core |-> c4, push |-> <<nx>>]
+         R(c4, IF AllPairs(lt) THEN <<sk>> ELSE <<nx>>, Rd)
+    [] op = "SPL" -> R(c4, <<nx, RAB>>, << >>)
+    [] op = "NOP" -> R(c4, <<nx>>, << >>)
+
+\* The interpreter with the configured limits ...
+ExecTask(core0, pc, cfg) ==
+  LET FR(p) == Fold(p, cfg.RL, cfg.M)
+      FW(p) == Fold(p, cfg.WL, cfg.M)
+  IN ExecTaskG(core0, pc, cfg.M, FR, FW)
+
+\* ... and with limits ignored altogether (every pointer simply reduced mod M)
+ExecTaskNoFold(core0, pc, M) ==
+  LET FM(p) == p % M
+  IN ExecTaskG(core0, pc, M, FM, FM)
+
+\* circular distance between two addresses
+CDist(x, y, M) == LET d == (x + M - y) % M IN IF d > M - d THEN M - d ELSE d
+
+\* addresses named by a reference event list as changed
+EvTouched(ev) == {ev[i][2] : i \in {j \in 1..Len(ev) : ev[j][1] \in {"Write","Dec","Inc"}}}
 =============================================================================
